@@ -113,24 +113,42 @@ def run_options(work):
     c = out["counters"]
     lo, hi = year_start(work["start_year"]), year_start(work["until_year"])
     for name, zi in work["zone_infos"].items():
-        segs = work["segments"].get(name)
-        pts = instants_for(segs, lo, hi, grid=86400 * 2 + 3600 * 5) if segs else list(range(lo, hi, 86400 * 2 + 3600 * 5))
+        ref = ZoneSpecifier(zi)
+        # instants where the window / finder / selector choices can matter: around every transition the default
+        # configuration computes, around every year boundary (the 13- and 14-month windows differ there), a coarse grid
+        pts = set(range(lo, hi, work.get("grid_s", 86400 * 9 + 3600 * 5)))
+        starts = set()
+        for y in range(work["start_year"], work["until_year"]):
+            ref.init_for_year(y)
+            for tr in ref.transitions:
+                if lo <= tr.startEpochSecond < hi:
+                    starts.add((tr.startEpochSecond, tr.to_timezone_tuple().total_offset))
+            for d in (-86400, -43200, -3600, -1, 0, 1, 3600, 43200, 86399, 86400, 86401):
+                t = year_start(y) + d
+                if lo <= t < hi:
+                    pts.add(t)
+        for b, off in starts:
+            for d in (-1, 0, 1, 3600):
+                if lo <= b + d < hi:
+                    pts.add(b + d)
+        pts = sorted(pts)
         ref = ZoneSpecifier(zi)
         answers = [tuple(ref.get_timezone_info_for_seconds(t)) for t in pts]
         c["zones"] = c.get("zones", 0) + 1
-        # local date-times: +-3 h around each transition's wall image, every 10 minutes; daily noon grid
+        # local date-times: +-3 h around each transition's wall image, every 10 minutes; around each New Year; a grid
         locals_ = []
-        for s in (segs or [])[1:]:
-            b = s[0] - EPOCH_SHIFT
+        for b, off in sorted(starts):
             if lo + 86400 * 3 <= b < hi - 86400 * 3:
-                for off in (s[1],):
-                    base = dt.datetime(2000, 1, 1) + dt.timedelta(seconds=b + off)
-                    for k in range(-18, 19):
-                        locals_.append(base + dt.timedelta(minutes=10 * k))
+                base = dt.datetime(2000, 1, 1) + dt.timedelta(seconds=b + off)
+                for k in range(-18, 19, work.get("local_step", 1)):
+                    locals_.append(base + dt.timedelta(minutes=10 * k))
+        for y in range(work["start_year"] + 1, work["until_year"] - 1):
+            for h in (-25, -13, -1, 0, 1, 13, 25):
+                locals_.append(dt.datetime(y, 1, 1) + dt.timedelta(hours=h, minutes=30))
         d = dt.datetime(work["start_year"], 1, 3, 12, 0, 0)
-        while d.year < work["until_year"] - 0 and d < dt.datetime(work["until_year"] - 1, 12, 28):
+        while d < dt.datetime(work["until_year"] - 1, 12, 28):
             locals_.append(d)
-            d += dt.timedelta(days=5)
+            d += dt.timedelta(days=29)
         ref_local = []
         for l in locals_:
             r = ref.get_timezone_info_for_datetime(l)
